@@ -5,6 +5,7 @@ import (
 	"encoding/binary"
 	"errors"
 	"fmt"
+	"github.com/KevoDB/kevo/pkg/verifhook"
 	"hash/crc32"
 	"io"
 	"math"
@@ -251,6 +252,7 @@ func (w *WAL) Append(entryType uint8, key, value []byte) (uint64, error) {
 	}
 
 	// Sequence number for this entry
+	verifhook.At("wal.append.pre")
 	seqNum := w.nextSequence
 	w.nextSequence++
 
@@ -275,6 +277,7 @@ func (w *WAL) Append(entryType uint8, key, value []byte) (uint64, error) {
 		}
 	}
 
+	verifhook.At("wal.append.buffered")
 	// Create an entry object for notification
 	entry := &Entry{
 		SequenceNumber: seqNum,
@@ -291,6 +294,7 @@ func (w *WAL) Append(entryType uint8, key, value []byte) (uint64, error) {
 		return 0, err
 	}
 
+	verifhook.At("wal.append.done")
 	return seqNum, nil
 }
 
@@ -617,10 +621,12 @@ func (w *WAL) syncLocked() error {
 		return fmt.Errorf("failed to flush WAL buffer: %w", err)
 	}
 
+	verifhook.At("wal.sync.flushed")
 	if err := w.file.Sync(); err != nil {
 		return fmt.Errorf("failed to sync WAL file: %w", err)
 	}
 
+	verifhook.At("wal.sync.synced")
 	w.lastSync = time.Now()
 	w.batchByteSize = 0
 
@@ -666,6 +672,7 @@ func (w *WAL) AppendBatch(entries []*Entry) (uint64, error) {
 	}
 
 	// Start sequence number for the batch
+	verifhook.At("wal.batch.pre")
 	startSeqNum := w.nextSequence
 
 	// Calculate total size needed for all entries to ensure atomic writing
@@ -704,12 +711,14 @@ func (w *WAL) AppendBatch(entries []*Entry) (uint64, error) {
 	// Now write all entries atomically (no intermediate flushes)
 	// All entries in the batch share the same sequence number
 	for i, entry := range entries {
+		verifhook.At("wal.batch.record")
 		// Write the entry using its original type and the same sequence number
 		if err := w.writeRecord(RecordTypeFull, entry.Type, startSeqNum, entry.Key, entry.Value); err != nil {
 			return 0, fmt.Errorf("failed to write entry %d: %w", i, err)
 		}
 	}
 
+	verifhook.At("wal.batch.buffered")
 	// Update next sequence number by 1 (not by batch size)
 	w.nextSequence = startSeqNum + 1
 
@@ -721,6 +730,7 @@ func (w *WAL) AppendBatch(entries []*Entry) (uint64, error) {
 		return 0, err
 	}
 
+	verifhook.At("wal.batch.done")
 	return startSeqNum, nil
 }
 
@@ -831,10 +841,12 @@ func (w *WAL) Close() error {
 		return fmt.Errorf("failed to flush WAL buffer during close: %w", err)
 	}
 
+	verifhook.At("wal.close.flushed")
 	if err := w.file.Sync(); err != nil {
 		return fmt.Errorf("failed to sync WAL file during close: %w", err)
 	}
 
+	verifhook.At("wal.close.synced")
 	// Now mark as rotating to block new operations
 	atomic.StoreInt32(&w.status, WALStatusRotating)
 
@@ -842,6 +854,7 @@ func (w *WAL) Close() error {
 		return fmt.Errorf("failed to close WAL file: %w", err)
 	}
 
+	verifhook.At("wal.close.closed")
 	atomic.StoreInt32(&w.status, WALStatusClosed)
 	return nil
 }
